@@ -324,7 +324,82 @@ func checkC06(replay string) {
 	if facts == 0 && r.NViol() == 0 {
 		base.Harness("C06 observed no exported fact")
 	}
+	c06VetCacheHistory(r)
 	r.Finish()
+}
+
+// c06VetCacheHistory: go vet keeps the facts of dependency-only packages in the build cache. The cache key covers the
+// tool and its flags, not the GOGREEMENT_* environment, so a configuration given through the environment may survive
+// in cached facts into a later run with another configuration. Both orders are replayed against a private, initially
+// empty GOCACHE; the module imports nothing, so nothing else has to be built.
+func c06VetCacheHistory(r *base.Run) {
+	files := map[string]string{
+		"go.mod":       "module vc\n\ngo 1.25\n",
+		"d/plain.go":   "package d\n\n// Keep is unannotated.\ntype Keep struct{ N int }\n",
+		"d/annot_x.go": "package d\n\n// T is annotated.\n// @immutable\n// @constructor NewT\ntype T struct{ F int }\n\n// NewT is the constructor.\nfunc NewT() *T { return &T{} }\n",
+		"app/app.go":   "package app\n\nimport \"vc/d\"\n\nfunc f() {\n\tx := d.NewT()\n\tx.F = 1\n\tx.F += 2\n\tx.F++\n\t_ = d.T{}\n\t_ = d.Keep{}\n}\n",
+	}
+	root := ggrun.Scratch()
+	defer os.RemoveAll(root)
+	ggrun.WriteTree(root, files)
+	fs := map[string]string{}
+	for k, v := range files {
+		fs["module/"+k] = v
+	}
+	vet := func(cache string, env []string) (map[string]bool, string) {
+		cmd := exec.Command("go", "vet", "-json", "-vettool="+ggrun.Bin, "./app")
+		cmd.Dir = root
+		for _, kv := range os.Environ() {
+			if !strings.HasPrefix(kv, "GOGREEMENT_") && !strings.HasPrefix(kv, "GOCACHE=") {
+				cmd.Env = append(cmd.Env, kv)
+			}
+		}
+		cmd.Env = append(append(cmd.Env, "GOCACHE="+cache), env...)
+		out, _ := cmd.CombinedOutput()
+		ds, _ := ggrun.ParseJSON(string(out), root)
+		return setIn(ds, nil), string(out)
+	}
+	alone := func(env []string) map[string]bool {
+		res := ggrun.Run(ggrun.Opts{Dir: root, Args: []string{"./app"}, Env: env})
+		return setIn(res.Diags, nil)
+	}
+	envX := []string{"GOGREEMENT_EXCLUDE_PATHS=annot_x"}
+	wantDefault, wantX := alone(nil), alone(envX)
+	if len(wantDefault) < 4 || len(wantX) != 0 {
+		r.Inconclusive(fmt.Sprintf("vet-cache history: the probe module gives %d / %d diagnostics standalone (expected >=4 / 0)", len(wantDefault), len(wantX)))
+		return
+	}
+	for oi, order := range [][2][]string{{envX, nil}, {nil, envX}} {
+		cache := filepath.Join(root, fmt.Sprintf(".gocache%d", oi))
+		os.MkdirAll(cache, 0o755)
+		first, _ := vet(cache, order[0])
+		second, out2 := vet(cache, order[1])
+		r.Eval(2)
+		wantFirst, wantSecond := wantX, wantDefault
+		if oi == 1 {
+			wantFirst, wantSecond = wantDefault, wantX
+		}
+		r.Distinct(fmt.Sprintf("vet-cache-history/order%d", oi))
+		if !sameSet(first, wantFirst) {
+			r.Violate("vet-cache/first-run-differs-from-standalone", fmt.Sprintf("order %d: first go vet run (env %v) on an empty cache reports %d diagnostics, standalone %d", oi, order[0], len(first), len(wantFirst)), fs)
+			continue
+		}
+		if !sameSet(second, wantSecond) {
+			r.Violate("vet-cache/env-config-frozen-in-cached-facts", fmt.Sprintf("order %d: go vet ./app with env %v after a run with env %v on the same GOCACHE reports %d diagnostics, the standalone driver under the same configuration %d: the facts of dependency vc/d were cached under the earlier GOGREEMENT_* environment\n%s", oi, order[1], order[0], len(second), len(wantSecond), head(out2, 1500)), fs)
+		}
+	}
+}
+
+func sameSet(a, b map[string]bool) bool {
+	if len(a) != len(b) {
+		return false
+	}
+	for k := range a {
+		if !b[k] {
+			return false
+		}
+	}
+	return true
 }
 
 func keysOf(m map[string]bool) []string {
